@@ -874,7 +874,7 @@ class Interp:
             self.setitem(base, idx, value, frame=frame, target=target)
         elif isinstance(target, ast.Attribute):
             base = self.eval(target.value, frame)
-            self.setattr_(base, target.attr, value)
+            self.setattr_(base, self.mangle(target.attr, frame), value)
         else:
             raise Unsupported("assignment target %s" % type(target).__name__)
 
@@ -989,7 +989,19 @@ class Interp:
         return format(self.eval(node.value, frame))
 
     def e_Attribute(self, node, frame):
-        return self.getattr_(self.eval(node.value, frame), node.attr)
+        return self.getattr_(self.eval(node.value, frame), self.mangle(node.attr, frame))
+
+    def mangle(self, attr, frame):
+        if attr.startswith("__") and not attr.endswith("__"):
+            parts = frame.qualname.split(":")[-1].split(".")
+            # innermost enclosing class: component before the function name that is not '<locals>'
+            for i in range(len(parts) - 2, -1, -1):
+                if parts[i] != "<locals>" and (i == 0 or parts[i - 1] != "<locals>" or parts[i][:1].isupper() or True):
+                    cls = parts[i]
+                    if cls.startswith("<"):
+                        continue
+                    return "_%s%s" % (cls.lstrip("_"), attr)
+        return attr
 
     def e_Subscript(self, node, frame):
         base = self.eval(node.value, frame)
